@@ -748,6 +748,172 @@ func (c *Ctx) uValues(rule, rel string, floor int) {
 			}
 		}
 	}
+	// (1) a saved original must be saved before the change: an undo that restores field F from a captured variable
+	// which the do-closure itself assigns from F after writing F restores the changed value.
+	// (2) a map entry inserted by the change under key K must be deleted by the rollback under the same K (and
+	// vice versa); keys are compared as expressions with captured variables resolved to their definitions.
+	for _, s := range c.appendSites(rel) {
+		if s.undo == nil || s.do == nil {
+			continue
+		}
+		a := s.call.Common().Args
+		doMC, _ := ssau.Unwrap(a[len(a)-2]).(*ssa.MakeClosure)
+		undoMC, _ := ssau.Unwrap(a[len(a)-1]).(*ssa.MakeClosure)
+		cellOf := func(mc *ssa.MakeClosure, fn *ssa.Function, fv *ssa.FreeVar) ssa.Value {
+			if mc == nil {
+				return nil
+			}
+			for k, f := range fn.FreeVars {
+				if f == fv && k < len(mc.Bindings) {
+					return mc.Bindings[k]
+				}
+			}
+			return nil
+		}
+		// (1)
+		for _, b := range s.undo.Blocks {
+			for _, in := range b.Instrs {
+				st, ok := in.(*ssa.Store)
+				if !ok {
+					continue
+				}
+				fa, ok := st.Addr.(*ssa.FieldAddr)
+				if !ok || isLocalRoot(st.Addr) {
+					continue
+				}
+				ld, ok := st.Val.(*ssa.UnOp)
+				if !ok || ld.Op != token.MUL {
+					continue
+				}
+				fv, ok := ld.X.(*ssa.FreeVar)
+				if !ok {
+					continue
+				}
+				cell := cellOf(undoMC, s.undo, fv)
+				if cell == nil {
+					continue
+				}
+				field := ownerField(fa)
+				// stores into the same cell from inside the do-closure
+				for dk, dfv := range s.do.FreeVars {
+					if doMC == nil || dk >= len(doMC.Bindings) || doMC.Bindings[dk] != cell {
+						continue
+					}
+					for _, db := range s.do.Blocks {
+						for _, din := range db.Instrs {
+							dst, ok := din.(*ssa.Store)
+							if !ok || dst.Addr != ssa.Value(dfv) {
+								continue
+							}
+							// is the saved value read from F after F was written in the do-closure?
+							late := false
+							for _, db2 := range s.do.Blocks {
+								for _, din2 := range db2.Instrs {
+									if w, ok := din2.(*ssa.Store); ok {
+										if wfa, ok := w.Addr.(*ssa.FieldAddr); ok && ownerField(wfa) == field && ssau.ReachAfter(s.do, w, nil).Instr(dst) {
+											late = true
+										}
+									}
+								}
+							}
+							readsF := ssau.DependsOn(dst.Val, func(x ssa.Value) bool {
+								u, ok := x.(*ssa.UnOp)
+								if !ok || u.Op != token.MUL {
+									return false
+								}
+								rfa, ok := u.X.(*ssa.FieldAddr)
+								return ok && ownerField(rfa) == field
+							})
+							if late && readsF {
+								c.R.Check(rule, fname(s.fn)+"|"+field+"|original saved after the change", false, c.posOf(dst),
+									fmt.Sprintf("the value the rollback writes back into %s is saved inside the change itself, after the change has already written %s: the rollback restores the new value", field, field))
+							}
+						}
+					}
+				}
+			}
+		}
+		// (2)
+		resolveKey := func(fn *ssa.Function, mc *ssa.MakeClosure, k ssa.Value) string {
+			return keyExpr(k, func(fv *ssa.FreeVar) ssa.Value {
+				cell := cellOf(mc, fn, fv)
+				if al, ok := cell.(*ssa.Alloc); ok {
+					if sts := ssau.StoresInto(al); len(sts) == 1 {
+						return sts[0].Val
+					}
+				}
+				return nil
+			}, 0)
+		}
+		type mapOp struct {
+			keys []string
+			pos  ssa.Instruction
+		}
+		collect := func(fn *ssa.Function, mc *ssa.MakeClosure) (ins, del map[string]*mapOp) {
+			ins, del = map[string]*mapOp{}, map[string]*mapOp{}
+			for _, b := range fn.Blocks {
+				for _, in := range b.Instrs {
+					switch x := in.(type) {
+					case *ssa.MapUpdate:
+						if f := mapFieldLevel(x.Map); f != "" {
+							if ins[f] == nil {
+								ins[f] = &mapOp{pos: in}
+							}
+							ins[f].keys = append(ins[f].keys, resolveKey(fn, mc, x.Key))
+						}
+					case ssa.CallInstruction:
+						if bi, ok := x.Common().Value.(*ssa.Builtin); ok && bi.Name() == "delete" {
+							if f := mapFieldLevel(x.Common().Args[0]); f != "" {
+								if del[f] == nil {
+									del[f] = &mapOp{pos: in}
+								}
+								del[f].keys = append(del[f].keys, resolveKey(fn, mc, x.Common().Args[1]))
+							}
+						}
+					}
+				}
+			}
+			return
+		}
+		dIns, dDel := collect(s.do, doMC)
+		uIns, uDel := collect(s.undo, undoMC)
+		pair := func(what string, a, b map[string]*mapOp) {
+			var fields []string
+			for f := range a {
+				fields = append(fields, f)
+			}
+			sort.Strings(fields)
+			for _, f := range fields {
+				other, ok := b[f]
+				if !ok {
+					continue
+				}
+				as, bs := append([]string{}, a[f].keys...), append([]string{}, other.keys...)
+				sort.Strings(as)
+				sort.Strings(bs)
+				// every key the rollback addresses is a key the change addressed (the change may also create an
+				// enclosing entry lazily, which an emptied entry stands for)
+				inA := map[string]bool{}
+				for _, k := range as {
+					inA[k] = true
+				}
+				okKeys := len(bs) > 0
+				for _, k := range bs {
+					if !inA[k] {
+						okKeys = false
+					}
+				}
+				if strings.Contains(strings.Join(as, ""), "?") || strings.Contains(strings.Join(bs, ""), "?") {
+					c.R.Info(rule, fname(s.fn)+"|"+f+"|"+what+" keys", c.posOf(other.pos), fmt.Sprintf("keys not comparable as expressions: change %v, rollback %v", as, bs))
+					continue
+				}
+				c.R.Check(rule, fname(s.fn)+"|"+f+"|"+what+" under the same key", okKeys, c.posOf(other.pos),
+					fmt.Sprintf("the change and its rollback address %s under different keys: change %v, rollback %v", f, as, bs))
+			}
+		}
+		pair("insert undone by delete", dIns, uDel)
+		pair("delete undone by insert", dDel, uIns)
+	}
 	c.R.FloorCheck(rule+" undo stores in "+rel, n, floor)
 }
 
@@ -793,4 +959,255 @@ func avoidableStores(fn *ssa.Function, ins []ssa.Instruction) bool {
 		}
 	}
 	return false
+}
+
+// keyExpr renders a map key as an expression over stable names: parameters and captured variables by their
+// definition (resolved through resolve), field selections, method calls by name. "?" marks what it cannot name.
+func keyExpr(v ssa.Value, resolve func(*ssa.FreeVar) ssa.Value, depth int) string {
+	if depth > 8 {
+		return "?"
+	}
+	switch x := v.(type) {
+	case *ssa.Const:
+		if x.Value == nil {
+			return "nil"
+		}
+		return x.Value.ExactString()
+	case *ssa.Parameter:
+		return "param:" + x.Name()
+	case *ssa.FreeVar:
+		return "var:" + x.Name()
+	case *ssa.UnOp:
+		if x.Op == token.MUL {
+			if fv, ok := x.X.(*ssa.FreeVar); ok {
+				if d := resolve(fv); d != nil {
+					return keyExpr(d, resolve, depth+1)
+				}
+				return "var:" + fv.Name()
+			}
+			if al, ok := x.X.(*ssa.Alloc); ok {
+				if sts := ssau.StoresInto(al); len(sts) == 1 {
+					return keyExpr(sts[0].Val, resolve, depth+1)
+				}
+				return "?"
+			}
+			return "*" + keyExpr(x.X, resolve, depth+1)
+		}
+		return x.Op.String() + keyExpr(x.X, resolve, depth+1)
+	case *ssa.FieldAddr:
+		return keyExpr(x.X, resolve, depth+1) + "." + ownerFieldName(x)
+	case *ssa.Field:
+		if st, ok := x.X.Type().Underlying().(*types.Struct); ok {
+			return keyExpr(x.X, resolve, depth+1) + "." + st.Field(x.Field).Name()
+		}
+		return "?"
+	case *ssa.IndexAddr:
+		return keyExpr(x.X, resolve, depth+1) + "[" + keyExpr(x.Index, resolve, depth+1) + "]"
+	case *ssa.Call:
+		name := "?"
+		if x.Call.IsInvoke() {
+			name = x.Call.Method.Name()
+			return keyExpr(x.Call.Value, resolve, depth+1) + "." + name + "()"
+		}
+		if o := ssau.CalleeObj(&x.Call); o != nil {
+			name = o.Name()
+		}
+		var args []string
+		for _, a := range x.Call.Args {
+			args = append(args, keyExpr(a, resolve, depth+1))
+		}
+		return name + "(" + strings.Join(args, ",") + ")"
+	case *ssa.Convert:
+		return keyExpr(x.X, resolve, depth+1)
+	case *ssa.ChangeType:
+		return keyExpr(x.X, resolve, depth+1)
+	case *ssa.MakeInterface:
+		return keyExpr(x.X, resolve, depth+1)
+	case *ssa.TypeAssert:
+		return keyExpr(x.X, resolve, depth+1)
+	case *ssa.Extract:
+		return keyExpr(x.Tuple, resolve, depth+1) + fmt.Sprintf("#%d", x.Index)
+	case *ssa.Next:
+		return "next(" + keyExpr(x.Iter, resolve, depth+1) + ")"
+	case *ssa.Range:
+		return "range(" + keyExpr(x.X, resolve, depth+1) + ")"
+	case *ssa.Slice:
+		return keyExpr(x.X, resolve, depth+1) + "[:]"
+	case *ssa.Phi:
+		return "phi:" + x.Comment
+	case *ssa.Lookup:
+		return keyExpr(x.X, resolve, depth+1) + "[" + keyExpr(x.Index, resolve, depth+1) + "]"
+	case *ssa.Alloc:
+		if sts := ssau.StoresInto(x); len(sts) == 1 {
+			return "&" + keyExpr(sts[0].Val, resolve, depth+1)
+		}
+		return "?"
+	}
+	return "?"
+}
+
+// mapFieldLevel is mapField with the nesting level of the addressed map appended (m[k] vs m[k1][k2]).
+func mapFieldLevel(m ssa.Value) string {
+	f := mapField(m)
+	if f == "" {
+		return ""
+	}
+	lvl := 0
+	v := ssau.Unwrap(m)
+	for {
+		lk, ok := v.(*ssa.Lookup)
+		if !ok {
+			if e, isE := v.(*ssa.Extract); isE {
+				if l2, isL := e.Tuple.(*ssa.Lookup); isL {
+					v = l2
+					continue
+				}
+			}
+			break
+		}
+		lvl++
+		v = ssau.Unwrap(lk.X)
+	}
+	return fmt.Sprintf("%s@%d", f, lvl)
+}
+
+// uDirect: the writes to the serialized state (fields of the key-frame structs) that block processing performs
+// outside any History.Append closure: such a write cannot be rolled back. Discovery/decision over the entry
+// points given.
+func (c *Ctx) uDirect(rule, rel string, entries [][2]string, frames map[string]bool, tabled map[string]string) {
+	pk := c.P.Pkg(rel)
+	if pk == nil {
+		return
+	}
+	sp := c.P.SSAPkgs[pk.PkgPath]
+	seen := map[*ssa.Function]bool{}
+	type hit struct {
+		fn    *ssa.Function
+		in    ssa.Instruction
+		field string
+		op    string
+	}
+	var hits []hit
+	var walk func(f *ssa.Function, depth int)
+	walk = func(f *ssa.Function, depth int) {
+		if f == nil || seen[f] || len(f.Blocks) == 0 || depth > 8 {
+			return
+		}
+		seen[f] = true
+		for _, b := range f.Blocks {
+			for _, in := range b.Instrs {
+				switch x := in.(type) {
+				case *ssa.Store:
+					if fa, ok := x.Addr.(*ssa.FieldAddr); ok && !isLocalRoot(x.Addr) {
+						of := ownerField(fa)
+						if frames[strings.SplitN(of, ".", 2)[0]] {
+							hits = append(hits, hit{f, in, of, "assign"})
+						}
+					}
+				case *ssa.MapUpdate:
+					if of := mapField(x.Map); of != "" && frames[strings.SplitN(of, ".", 2)[0]] && !mapOfFreshObject(x.Map) {
+						hits = append(hits, hit{f, in, of, "ins"})
+					}
+				case ssa.CallInstruction:
+					cm := x.Common()
+					if bi, ok := cm.Value.(*ssa.Builtin); ok {
+						if bi.Name() == "delete" {
+							if of := mapField(cm.Args[0]); of != "" && frames[strings.SplitN(of, ".", 2)[0]] && !mapOfFreshObject(cm.Args[0]) {
+								hits = append(hits, hit{f, in, of, "del"})
+							}
+						}
+						continue
+					}
+					if _, isGo := in.(*ssa.Go); isGo {
+						continue
+					}
+					if callee := cm.StaticCallee(); callee != nil && callee.Pkg == sp {
+						walk(callee, depth+1)
+					}
+				}
+			}
+		}
+		for _, a := range f.AnonFuncs {
+			if !usedAsHistoryArg(a) {
+				walk(a, depth+1)
+			}
+		}
+	}
+	for _, e := range entries {
+		walk(c.fn(rel, e[0], e[1]), 0)
+	}
+	n := 0
+	for _, h := range hits {
+		root := h.fn
+		for root.Parent() != nil {
+			root = root.Parent()
+		}
+		key := fmt.Sprintf("%s|%s:%s outside history", fname(root), h.field, h.op)
+		if why, ok := tabled[fname(root)+"|"+h.field]; ok {
+			c.R.Info(rule, key, c.posOf(h.in), why)
+			continue
+		}
+		n++
+		c.R.Check(rule, key, false, c.posOf(h.in), fmt.Sprintf("%s writes %s (%s) directly while a block is processed, outside any History.Append change: rolling the block back leaves the write in place", fname(root), h.field, h.op))
+	}
+	c.R.Check(rule, rel+"|writes outside history", n == 0, "", fmt.Sprintf("%d functions on the block-processing paths examined, %d key-frame writes outside history changes", len(seen), n))
+}
+
+// mapOfFreshObject: the map is a field of a struct value that the function itself created (a local variable, a
+// captured local, or a freshly allocated object held in a local): writing it does not touch shared state.
+func mapOfFreshObject(m ssa.Value) bool {
+	m = ssau.Unwrap(m)
+	for {
+		lk, ok := m.(*ssa.Lookup)
+		if !ok {
+			break
+		}
+		m = ssau.Unwrap(lk.X)
+	}
+	ld, ok := m.(*ssa.UnOp)
+	if !ok || ld.Op != token.MUL {
+		return false
+	}
+	fa, ok := ld.X.(*ssa.FieldAddr)
+	if !ok {
+		return false
+	}
+	var fresh func(v ssa.Value, depth int) bool
+	fresh = func(v ssa.Value, depth int) bool {
+		if depth > 4 {
+			return false
+		}
+		switch x := v.(type) {
+		case *ssa.Alloc:
+			// the variable itself (a struct value) or a new(T)
+			if _, isStruct := x.Type().Underlying().(*types.Pointer).Elem().Underlying().(*types.Struct); isStruct {
+				return true
+			}
+			return false
+		case *ssa.FreeVar:
+			_, isStruct := x.Type().Underlying().(*types.Pointer).Elem().Underlying().(*types.Struct)
+			return isStruct
+		case *ssa.FieldAddr:
+			return fresh(x.X, depth+1)
+		case *ssa.UnOp:
+			if x.Op != token.MUL {
+				return false
+			}
+			if al, ok := x.X.(*ssa.Alloc); ok {
+				sts := ssau.StoresInto(al)
+				if len(sts) == 0 {
+					return false
+				}
+				for _, st := range sts {
+					if !fresh(st.Val, depth+1) {
+						return false
+					}
+				}
+				return true
+			}
+			return false
+		}
+		return false
+	}
+	return fresh(fa.X, 0)
 }
